@@ -176,6 +176,13 @@ func handTargets() []target {
 	add("help/package-lisp", "(help:help-package 'json)")
 	add("help/symbols", "(help:help-package-symbols 'time)")
 	add("help/help", "(help:help 'map)")
+	// export lists: built up by several export calls, including calls that add nothing new and calls naming unbound
+	// symbols; the order shows in the help listings and in WHICH unbound export use-package complains about
+	const shapes = "(in-package 'shapes) (export 'zeta 'alpha 'mu) (defun alpha () 1) (export '(beta omega) 'gamma) (export 'mu) (export 'alpha 'zeta) (export \"kappa\" 'delta) (export 'delta) (in-package 'user) "
+	add("pkg/exports-listing", shapes+"(help:help-package-symbols 'shapes)")
+	add("pkg/exports-help-package", shapes+"(help:help-package 'shapes)")
+	add("pkg/use-package-first-unbound", shapes+"(handler-bind ([condition (lambda (c &rest d) (list c d))]) (use-package 'shapes))")
+	add("pkg/exports-after-reload", shapes+shapes+"(list (handler-bind ([condition (lambda (c &rest d) (list c d))]) (use-package 'shapes)) (help:help-package-symbols 'shapes))")
 	add("schema/validator-print", "(s:make-validator \"v\" s:int (s:gt 1))")
 	add("schema/validate-err", "(s:validate (s:make-validator \"v\" s:int (s:gt 1)) 0)")
 	add("schema/validate-arity", "(funcall (s:make-validator \"v\" s:int (s:gt 1)))")
